@@ -90,6 +90,20 @@ type c16RevState struct {
 	Refs []c16XRef `json:"refs"`
 }
 
+// c16Act is one write of a THIRD PARTY (garbage collector, administrator, another
+// controller) interleaved with the Establish call of the step: it happens right
+// before the real (non-dry-run) write that the goroutine of object I issues, i.e.
+// after the validate phase has seen the object. "del" deletes the object with
+// this key, "put" creates it or replaces it (fresh resourceVersion) with the given
+// body and owner references.
+type c16Act struct {
+	I      int      `json:"i"`
+	Act    string   `json:"act"` // del | put
+	Key    string   `json:"key"`
+	Body   int      `json:"body"`
+	Owners []c16Ref `json:"owners"`
+}
+
 type c16Step struct {
 	Op        string     `json:"op"` // establish | release | reconcile
 	Parent    c16Parent  `json:"parent"`
@@ -100,6 +114,7 @@ type c16Step struct {
 	RejBodies []int      `json:"rejBodies"`
 	RejKeys   []string   `json:"rejKeys"`
 	Conc      int        `json:"conc"`
+	TP        []c16Act   `json:"tp"` // third-party interference with the establish phase
 	// told to the model (filled in after the real run)
 	VOrder []int  `json:"vorder"`
 	EOrder []int  `json:"eorder"`
